@@ -299,3 +299,25 @@ def run(ck):
     # proof, key and ciphertext a second accepted encoding
     from .c20 import canonical_decoders
     canonical_decoders(ck, c)
+
+    # strings: the prefix written before `serial_string` announces BYTES (what every decoder reads back): per writer, as many
+    # written integers derive from `len()` of a string as there are `serial_string` calls, and none from a character count
+    nstr = 0
+    for p in sorted(c.paths()):
+        if not re.search(r"::serial$", p):
+            continue
+        for b in c.get_all(p):
+            f = Fn(b)
+            ss = f.calls(r"serial_string$")
+            if not ss:
+                continue
+            nstr += 1
+            ws_ = [(bi, t, f.origins(t["args"][0], deep=True)) for (bi, t) in f.calls(r"Serial::serial$")]
+            bylen = [x for x in ws_ if has_call_origin(x[2], r"(String|str|<impl str>)::len$") and not has_call_origin(x[2], r"Iterator::count$|::chars$|char_indices$")]
+            bychars = [x for x in ws_ if has_call_origin(x[2], r"Iterator::count$|::chars$|char_indices$")]
+            ok = len(bylen) >= len(ss) and not bychars
+            ck.ob("DEFUSE", p, "string-length-prefix-is-byte-length", ok,
+                  "%d strings written, %d prefixes derived from len() in bytes" % (len(ss), len(bylen)) if ok else
+                  "%d strings written but %d prefixes derive from the byte length (%d from a character count): a non-ASCII string is announced shorter than the bytes that follow" % (len(ss), len(bylen), len(bychars)),
+                  f.loc(bychars[0][0]) if bychars else f.loc(ss[0][0]))
+    ck.floor("DEFUSE", "writers of length-prefixed strings", nstr, 6)
